@@ -7,67 +7,66 @@ import ClockBound.Proofs.RsSeqlock
 namespace ClockBound.Rs.SeqlockProof
 open ClockBound ClockBound.Rs ClockBound.Generated ClockBound.Rs.DictShm ClockBound.Rs.EmbedShm
 
-/-- the local variables at the head of the loop: the generation to confirm and the reader (no counter) -/
-def LSf (v : Nat) : MkSt := fun _ g1 cg cache lg pos =>
-  { env := [(nm 3, .int .u16 g1), (nm 2, refA16 "generation"),
-            (nm 1, .int .u16 v), (nm 0, refA16 "version"), ("self", readerValue cg cache)],
-    log := lg, pos := pos }
+/-- the loop state of the `for` form: the generic layout (`LSg`, read off the probe run); there is no counter -/
+def LSf (v : Nat) : MkSt := fun _ g1 cg cache lg pos => LSg .infer v 0 g1 cg cache lg pos
 
 theorem goodMk_LSf (v : Nat) (p : Pat) (it : Expr) (b : List Stmt)
     (hcb : findFor Code.fn_ShmReader__snapshot_stmts = some (p, it, b)) : GoodMk (LSf v) := by
   first
   | (exfalso; simp [findFor] at hcb; done)
-  | (intro k g1 cg cache lg pos; simp [LSf, nm, nth, topLets, envGet])
+  | (intro k g1 cg cache lg pos; simp [LSf, LSg, probeEnv, probeSt, loopPrefix, probeInp, relabel, sfr, rs_eval, rs_code, rawInp, readerValue, wordsValue, envGet])
 
 set_option maxRecDepth 8000 in
 set_option maxHeartbeats 2000000 in
 /-- one item of the `for`: bind the pattern, run the body -/
 theorem iter_for (inp : Nat → Nat) (nowNs : Int) (sizes : List (String × Nat)) (p : Pat) (it : Expr) (b : List Stmt)
     (hcb : findFor Code.fn_ShmReader__snapshot_stmts = some (p, it, b))
-    (i : Int) (k g1 v cg : Nat) (cache : List Nat) (lg : List Value) (pos : Nat)
+    (t : IntTy) (i : Int) (k g1 v cg : Nat) (cache : List Nat) (lg : List Value) (pos : Nat)
     (hpos : AttemptPos pos) (N : Nat) (hN : 30 ≤ N) (next : St → Res) (st : St) (hst : st = LSf v k g1 cg cache lg pos) :
-    (orStuck "for: pattern without a rule" (matchPat N sfr.selfTy p (.int .u32 i)) fun (_, bs) =>
+    (orStuck "for: pattern without a rule" (matchPat N sfr.selfTy p (.int t i)) fun (_, bs) =>
       ((evalBlock N (sctx nowNs sizes inp) sfr b { st with env := bs ++ st.env }).popTo st.env.length).loopNext next)
     = if g1 = typedInp inp (pos + SL.N) then
         .ret (.enumv "Ok" [wordsValue (SL.attemptCells (typedInp inp) pos)])
           (LSf v k g1 g1 (SL.attemptCells (typedInp inp) pos)
-            (lg ++ (SL.attemptAccs {} (typedInp inp) pos).map accValue) (pos + SL.N + 1))
+            (lg ++ (SL.attemptAccs snapAnn (typedInp inp) pos).map accValue) (pos + SL.N + 1))
       else
         next (LSf v k (if typedInp inp (pos + SL.N) % 2 = 0 then typedInp inp (pos + SL.N) else g1) cg cache
-          (lg ++ (SL.attemptAccs {} (typedInp inp) pos).map accValue) (pos + SL.N + 1)) := by
+          (lg ++ (SL.attemptAccs snapAnn (typedInp inp) pos).map accValue) (pos + SL.N + 1)) := by
   first
   | (exfalso; simp [findFor] at hcb; done)
   | (simp [findFor] at hcb
      obtain ⟨rfl, rfl, rfl⟩ := hcb
      subst hst
      obtain ⟨M, rfl⟩ := Nat.exists_eq_add_of_le' hN
-     simp [rs_eval, rs_code, LSf, nm, nth, topLets, sfr, rawInp, readerValue, wordsValue, readWords_attempt inp hpos,
-       typedInp_gen2 inp hpos, wordLoads_attempt, SL.attemptAccs, accValue, locValue, locTy, ordValue]
+     eval_bodyLog hbl
+     simp [rs_eval, rs_code, LSf, LSg, probeEnv, probeSt, loopPrefix, probeInp, relabel, sfr, rawInp, readerValue, wordsValue,
+       readWords_attempt inp hpos, typedInp_gen2 inp hpos, wordLoads_attempt, SL.attemptAccs, accValue, locValue, locTy,
+       ordValue, snapAnn, hbl, evOrd, isFenceEv, lastOf, ordOfValue, evLoad, evFence]
      split_ifs <;> simp_all <;> omega)
 
 /-- the `for` over `lo .. lo + k` (a budget of `k` attempts), for every fuel ≥ `k + 31` -/
 theorem loop_eq_for (inp : Nat → Nat) (nowNs : Int) (sizes : List (String × Nat)) (p : Pat) (it : Expr) (b : List Stmt)
     (hcb : findFor Code.fn_ShmReader__snapshot_stmts = some (p, it, b)) (v cg : Nat) (cache : List Nat) :
-    ∀ k (lo : Int) pos, AttemptPos pos → ∀ g1 lg N, k + 31 ≤ N →
-      evalFor N (sctx nowNs sizes inp) sfr p b (intRange .u32 lo (lo + (k : Nat))) (LSf v 0 g1 cg cache lg pos)
+    ∀ k (t : IntTy) (lo : Int) pos, AttemptPos pos → ∀ g1 lg N, k + 31 ≤ N →
+      evalFor N (sctx nowNs sizes inp) sfr p b (intRange t lo (lo + (k : Nat))) (LSf v 0 g1 cg cache lg pos)
       = loopOutG (typedInp inp) cg cache (LSf v) (LSf v) k pos g1 lg := by
   intro k
   induction k with
   | zero =>
-    intro lo pos _ g1 lg N hN
+    intro t lo pos _ g1 lg N hN
     obtain ⟨M, rfl⟩ : ∃ M, N = M + 1 := ⟨N - 1, by omega⟩
     rw [intRange_nil _ _ _ (by omega), evalFor_nil]
     simp [loopOutG, LSf]
   | succ k ih =>
-    intro lo pos hpos g1 lg N hN
+    intro t lo pos hpos g1 lg N hN
     obtain ⟨M, rfl⟩ : ∃ M, N = M + 1 := ⟨N - 1, by omega⟩
     rw [intRange_cons _ _ _ (by omega), evalFor_cons,
-      iter_for inp nowNs sizes p it b hcb lo 0 g1 v cg cache lg pos hpos M (by omega) _ _ rfl]
+      iter_for inp nowNs sizes p it b hcb t lo 0 g1 v cg cache lg pos hpos M (by omega) _ _ rfl]
     rw [loopOutG]
     have e : lo + ((k + 1 : Nat) : Int) = (lo + 1) + ((k : Nat) : Int) := by omega
     split
     · rfl
     · rw [e]
-      exact ih (lo + 1) _ hpos.next _ _ M (by omega)
+      exact ih t (lo + 1) _ hpos.next _ _ M (by omega)
 
 end ClockBound.Rs.SeqlockProof
